@@ -96,6 +96,7 @@ func (p *c17) RunCase(ctx *runner.Ctx) runner.CaseResult {
 		p.requiredFields(x, ctx)
 		p.nativeParity(x, ctx)
 		p.billingSwitches(x, ctx)
+		p.twoDefectBatches(x, ctx)
 		return x.r
 	}
 	r := mon.Rng(ctx.Seed, "C17", ctx.Case)
@@ -371,6 +372,50 @@ func (p *c17) billingSwitches(x *res, ctx *runner.Ctx) {
 					}
 				}
 			}
+		}
+	}
+}
+
+// twoDefectBatches: a BatchWriteItem over two (three) tables that is wrong in two ways - one table does not exist, the
+// request for another one lacks its key attribute or gives it the wrong type. Which defect is reported is the same in
+// both clients and the same every time (30 repetitions on fresh clients: a verdict taken from the iteration order of
+// the request map differs between two runs of one client, let alone between the clients).
+func (p *c17) twoDefectBatches(x *res, ctx *runner.Ctx) {
+	specs := []adapt.TableSpec{mon.SpecHashOnly("tbl17m"), mon.SpecHashOnly("tbl17z")}
+	batches := map[string][]adapt.BatchEntry{
+		"missing-table-and-missing-key":   {{Table: "nosuchtable17", Put: val.Item{"h": val.Str("k")}}, {Table: "tbl17m", Put: val.Item{"v": val.Str("no key")}}},
+		"missing-table-and-ill-typed-key": {{Table: "tbl17z", Del: val.Item{"h": val.Num("1")}}, {Table: "zz-nosuchtable17", Put: val.Item{"h": val.Str("k")}}},
+		"three-tables": {{Table: "tbl17m", Put: val.Item{"h": val.Str("fine")}}, {Table: "a-nosuchtable17", Put: val.Item{"h": val.Str("k")}}, {Table: "tbl17z", Put: val.Item{"x": val.Str("no key")}},
+			{Table: "zz-nosuchtable17", Del: val.Item{"h": val.Str("k")}}},
+	}
+	for name, batch := range batches {
+		classes := map[string]int{}
+		for rep := 0; rep < 30; rep++ {
+			c1, c2 := adapt.New("v1"), adapt.New("v2")
+			for _, s := range specs {
+				c1.Do(createOp(s))
+				c2.Do(createOp(s))
+			}
+			op := adapt.Op{Kind: adapt.OpBatchWrite, Batch: batch}
+			o1, o2 := c1.Do(op), c2.Do(op)
+			x.r.Evals += 2
+			classes["v1="+o1.Class]++
+			classes["v2="+o2.Class]++
+		}
+		x.r.Counters["two_defect_batches"] += 30
+		x.fp(true, "two-defect-batch|%s", name)
+		if len(classes) != 2 || func() bool {
+			var a, b string
+			for k := range classes {
+				if strings.HasPrefix(k, "v1=") {
+					a = k[3:]
+				} else {
+					b = k[3:]
+				}
+			}
+			return a != b
+		}() {
+			x.viol("outcomes-differ", "batchwrite-two-defects/"+name, fmt.Sprintf("BatchWriteItem %s sent 30 times to fresh clients of both kinds is answered with these classes: %v - the same request, one answer", name, classes), map[string]interface{}{"batch": batch, "classes": classes})
 		}
 	}
 }
